@@ -11,7 +11,7 @@ structure DState where
 
 def parseAcq (x : String) : Option Acq :=
   match x with
-  | "lock" => some .lock | "guard" => some .lock | "lockw" => some .lock | "pguard" => some .lock
+  | "lock" => some .lock | "guard" => some .lock | "lockw" => some .lock | "locky" => some .lock | "pguard" => some .lock
   | "dtry" => some .try_ | "rtry" => some .try_
   | "sticky" => some .sticky
   | "trylock" => some .try_ | "tryguard" => some .try_
